@@ -4,7 +4,7 @@
    offset off above any frames and with any heap, pushes the value of the expression (or stops with VarNotFound): the
    statement of C01SimF5.expr_f1_sim5 without the assumption that the frame is main's.
    (The simulation of right-hand sides with calls, statements, bodies and functions on top of this and of
-   C01SimVm9.ex9_call / ex9_return is not done.) *)
+   C01SimVm9.ex9_call / ex9_return: C01SimF9b; the whole-program theorem: C01SimF9c.) *)
 From Coq Require Import List NArith ZArith Bool Lia.
 From Cao Require Import ListUtil CheckUtil Bits Stacks Bytecode Compiler CompilerProofs CompilerWf CompilerOk CardAst.
 From Cao Require Import Vm VmProofs C04VmProofs C01SimVm C01SimVmLocals C01SimDefs C01SimRef C01SimF1 C01SimDefs2 C01SimF2.
